@@ -30,7 +30,9 @@ LEVEL_TEXT = ("Machine-checked proof (Coq, closed under the global context), for
 LEVEL_NOTE = ("Trusted: Coq kernel + vm_compute; hand-written model coq/Model/C10.v validated by the correspondence "
               "run; gen/c10.py (AST shape check + thresholds); the transport-level model (titer) abstracts the key "
               "exchange itself to three peer messages and is checked only by loopback sessions (several threshold "
-              "crossings per session, each must produce a KEXINIT); wire length of a packet is measured, not "
+              "crossings per session, each must produce a KEXINIT; every compression setting incl. delayed zlib, "
+              "either role initiating; after each re-key: data both ways on the open channel, a new channel, a "
+              "granted global request, both ends still authenticated - this transparency part is testing, not proof); wire length of a packet is measured, not "
               "modelled (C01/C03 own framing); the implementation-level oracles (direct drive and sessions) run "
               "independently of the translator and of the model.")
 TECHNIQUE = "Coq proof (induction over op / event sequences) + translator + vm_compute differential correspondence"
@@ -326,7 +328,7 @@ def check_direct(ctx, cfg, script, kind):
 # ---------------------------------------------------------------------------------------------
 # real loopback sessions
 
-def _session(ctx, server_ignores_kexinit=False):
+def _session(ctx, server_ignores_kexinit=False, compression=None):
     import paramiko
     from paramiko.packet import Packetizer
     from paramiko.common import MSG_KEXINIT
@@ -344,6 +346,9 @@ def _session(ctx, server_ignores_kexinit=False):
 
         def check_channel_exec_request(self, channel, command):
             return True
+
+        def check_global_request(self, kind, msg):
+            return kind == "c10-probe@verif"
 
     import logging
     lg = logging.getLogger("paramiko")
@@ -370,6 +375,9 @@ def _session(ctx, server_ignores_kexinit=False):
     tc = paramiko.Transport(a, packetizer_class=mk("c"))
     ts = paramiko.Transport(b, packetizer_class=mk("s"))
     ts.add_server_key(paramiko.RSAKey.from_private_key_file(os.path.join(ctx.repo, "tests", "_support", "rsa.key")))
+    if compression is not None:
+        tc.get_security_options().compression = (compression,)
+        ts.get_security_options().compression = (compression,)
     if server_ignores_kexinit:
         orig = ts._handler_table[MSG_KEXINIT]
         state = {"first": True}
@@ -419,16 +427,83 @@ def _recv_exact(ch, n):
     return buf
 
 
-def session_rekey(ctx, side, attr, value, rounds, direction):
+def use_everything(ctx, case, tc, ts, chan, schan, tag):
+    """After a re-key the session must still do everything it could do before: data on the open
+    channel in both directions, a NEW channel (with data both ways), a global request that the server
+    grants, and both ends still consider the session authenticated.  Returns False after a failure."""
+    def both_ways(c, s, label):
+        for src, dst, d in ((c, s, "up"), (s, c, "down")):
+            data = bytes((len(label) * 5 + i * 3) & 0xFF for i in range(90)) + label.encode()
+            try:
+                src.sendall(data)
+                got = _recv_exact(dst, len(data))
+            except Exception as e:  # noqa
+                ctx.fail("post-rekey-traffic-failed", "%s: sending/receiving %s data on %s raised %s" % (
+                    tag, d, label, type(e).__name__), case=case, observed=repr(e))
+                return False
+            if got != data:
+                ctx.fail("post-rekey-traffic-failed", "%s: %s data on %s not delivered intact (session alive: %s/%s)"
+                         % (tag, d, label, tc.is_active(), ts.is_active()), case=case, expected=data, observed=got)
+                return False
+        return True
+
+    if not both_ways(chan, schan, "existing channel"):
+        return False
+    if not (tc.is_authenticated() and ts.is_authenticated() and ts.get_username() == "u"):
+        ctx.fail("post-rekey-auth-lost", "%s: the session is no longer authenticated" % tag, case=case,
+                 expected=[True, True, "u"],
+                 observed=[tc.is_authenticated(), ts.is_authenticated(), ts.get_username()])
+        return False
+    try:
+        c2 = tc.open_session(timeout=5)
+        c2.exec_command("y")
+        s2 = ts.accept(5)
+    except Exception as e:  # noqa
+        ctx.fail("post-rekey-new-channel-refused", "%s: opening a new channel failed: %s" % (tag, e), case=case,
+                 observed=repr(e))
+        return False
+    if s2 is None:
+        ctx.fail("post-rekey-new-channel-refused", "%s: the server never saw the new channel" % tag, case=case)
+        return False
+    c2.settimeout(5)
+    s2.settimeout(5)
+    if not both_ways(c2, s2, "new channel"):
+        return False
+    c2.close()
+    s2.close()
+    try:
+        r = tc.global_request("c10-probe@verif", wait=True)
+    except Exception as e:  # noqa
+        r = e
+    if r is None or isinstance(r, Exception):
+        ctx.fail("post-rekey-global-request-refused", "%s: a global request the server grants was refused / failed"
+                 % tag, case=case, observed=repr(r))
+        return False
+    if not (tc.is_active() and ts.is_active()):
+        ctx.fail("session-died", "%s: transport died" % tag, case=case,
+                 observed=repr(tc.get_exception() or ts.get_exception()))
+        return False
+    return True
+
+
+def session_rekey(ctx, side, attr, value, rounds, direction, compression=None):
     """The transport `side` ('c'/'s') gets a small threshold; traffic flows client->server
     ('up') or server->client ('down'); every crossing must produce one KEXINIT from `side`, a
     completed exchange (new session key material, flag clear) and intact traffic afterwards."""
     from paramiko.common import MSG_KEXINIT, MSG_NEWKEYS
     history = []
-    case = {"session": "rekey", "side": side, "attr": attr, "value": value, "rounds": rounds, "direction": direction}
-    tc, ts, chan, schan, log = _session(ctx)
+    case = {"session": "rekey", "side": side, "attr": attr, "value": value, "rounds": rounds, "direction": direction,
+            "compression": compression}
+    tc, ts, chan, schan, log = _session(ctx, compression=compression)
     try:
         t = tc if side == "c" else ts
+        if compression is not None and (tc.local_compression != compression or ts.local_compression != compression):
+            ctx.fail("compression-not-negotiated", "requested compression was not negotiated", case=case,
+                     observed=[tc.local_compression, ts.local_compression])
+            return
+        # the session works before any re-key (so that a later failure is attributable to the re-key)
+        if not use_everything(ctx, case, tc, ts, chan, schan, "before any re-key"):
+            return
         setattr(t.packetizer, attr, value)
         src, dst = (chan, schan) if direction == "up" else (schan, chan)
         seq = 0
@@ -441,8 +516,14 @@ def session_rekey(ctx, side, attr, value, rounds, direction):
             while not t.packetizer.need_rekey() and _count(log, side, "out", MSG_KEXINIT) == before:
                 data = bytes((seq + i) & 0xFF for i in range(256))
                 seq += 1
-                src.sendall(data)
-                got = _recv_exact(dst, len(data))
+                try:
+                    src.sendall(data)
+                    got = _recv_exact(dst, len(data))
+                except Exception as e:  # noqa
+                    ctx.fail("traffic-failed", "round %d: paced channel data raised %s (transport exceptions: %r / %r)"
+                             % (r + 1, type(e).__name__, tc.get_exception(), ts.get_exception()),
+                             case=case, observed=repr(e))
+                    return
                 if got != data:
                     ctx.fail("traffic-corrupted", "data delivered differs from data sent", case=case,
                              expected=data, observed=got)
@@ -478,8 +559,15 @@ def session_rekey(ctx, side, attr, value, rounds, direction):
             for _ in range(3):
                 data = bytes((seq * 3 + i) & 0xFF for i in range(100))
                 seq += 1
-                src.sendall(data)
-                got = _recv_exact(dst, len(data))
+                try:
+                    src.sendall(data)
+                    got = _recv_exact(dst, len(data))
+                except Exception as e:  # noqa
+                    ctx.fail("post-rekey-traffic-failed", "after re-key %d: the first data on the open channel "
+                             "raised %s (transport exceptions: %r / %r)" % (r + 1, type(e).__name__,
+                                                                            tc.get_exception(), ts.get_exception()),
+                             case=case, observed=repr(e))
+                    return
                 if got != data:
                     ctx.fail("traffic-corrupted", "data delivered after the re-key differs from data sent",
                              case=case, expected=data, observed=got)
@@ -488,13 +576,16 @@ def session_rekey(ctx, side, attr, value, rounds, direction):
                 ctx.fail("session-died", "transport died during a compliant re-key", case=case,
                          observed=repr(tc.get_exception() or ts.get_exception()))
                 return
+            if not use_everything(ctx, case, tc, ts, chan, schan, "after re-key %d" % (r + 1)):
+                return
         time.sleep(0.15)
         n = _count(log, side, "out", MSG_KEXINIT)
-        # 3 post-rekey packets of <= ~150 bytes never reach the thresholds used here again
+        # the post-re-key use of the session (< 40 packets, < 3 KB) stays below the thresholds used here
         if n != 1 + rounds:
             ctx.fail("kexinit-count", "number of KEXINITs differs from 1 + number of threshold crossings "
                      "(counters not restarted?)", case=case, expected=1 + rounds, observed=n)
-        ctx.count(("session", side, attr, value, rounds, direction), kind="session-rekey-%s-%s" % (side, direction))
+        ctx.count(("session", side, attr, value, rounds, direction, compression),
+                  kind="session-rekey-%s-%s-%s" % (side, direction, compression or "default"))
     finally:
         tc.close()
         ts.close()
@@ -632,14 +723,19 @@ def run(ctx):
         ops, trace = check_direct(ctx, cfg, script, "direct-" + profile)
         cases.append((cfg, script, ops, trace))
     # ---- 2. real loopback sessions ------------------------------------------------------------
-    guarded(ctx, session_rekey, "c", "REKEY_PACKETS", rng.randrange(25, 45), 3, "up")        # send-heavy, idle read
-    guarded(ctx, session_rekey, "s", "REKEY_BYTES", 512 * rng.randrange(12, 24), 2, "up")    # receive-heavy
+    # every compression setting (delayed zlib included) x both roles initiating; >= 2 crossings per session
+    comps = ["none", "zlib", "zlib@openssh.com"]
+    for i, comp in enumerate(comps):
+        d1, d2 = ("up", "down") if (i + ctx.seed) % 2 == 0 else ("down", "up")
+        guarded(ctx, session_rekey, "c", "REKEY_PACKETS", rng.randrange(70, 100), 3 if comp == "none" else 2, d1, comp)
+        guarded(ctx, session_rekey, "s", "REKEY_BYTES", 512 * rng.randrange(24, 40), 2, d2, comp)
     guarded(ctx, session_refuser, rng.randrange(22, 40), rng.randrange(5, 12), False)
     guarded(ctx, session_refuser, rng.randrange(22, 40), rng.randrange(8, 14), True)
     if ctx.thorough:
-        guarded(ctx, session_rekey, "s", "REKEY_PACKETS", rng.randrange(25, 45), 3, "down")
-        guarded(ctx, session_rekey, "c", "REKEY_BYTES", 512 * rng.randrange(12, 24), 3, "down")
-        guarded(ctx, session_rekey, "c", "REKEY_BYTES", 512 * rng.randrange(12, 24), 4, "up")
+        for comp in comps:
+            guarded(ctx, session_rekey, "s", "REKEY_PACKETS", rng.randrange(70, 100), 3, "down", comp)
+            guarded(ctx, session_rekey, "c", "REKEY_BYTES", 512 * rng.randrange(24, 40), 3, "up", comp)
+        guarded(ctx, session_rekey, "c", "REKEY_BYTES", 512 * rng.randrange(24, 40), 4, "down", None)
         for _ in range(3):
             guarded(ctx, session_refuser, rng.randrange(22, 60), rng.randrange(4, 20), False)
         guarded(ctx, session_refuser, rng.randrange(22, 40), rng.randrange(8, 14), True)
@@ -669,8 +765,11 @@ def replay(ctx, rep):
         check_direct(ctx, cfg, script, "replay")
         ctx.count(("replay", 2))
     elif case.get("session") == "rekey":
-        guarded(ctx, session_rekey, case["side"], case["attr"], case["value"], case["rounds"], case["direction"])
+        guarded(ctx, session_rekey, case["side"], case["attr"], case["value"], case["rounds"], case["direction"],
+                case.get("compression"))
     elif case.get("session") == "refuser":
         guarded(ctx, session_refuser, case["rp"], case["op"], case["comply"])
+    elif case.get("scenario") in ("session_rekey", "session_refuser"):
+        guarded(ctx, globals()[case["scenario"]], *case["args"])
     else:
         run(ctx)
